@@ -41,6 +41,19 @@ CLAIMED = {
             "sizes is not proved; two recorded findings (zero-cost level, fall-through exit).",
             "Lean 4 proof (real analysis with Real.sqrt + loop invariants) + behaviour-derived generated obligation + differential correspondence",
             "DESIGN.md §4 C06"),
+    "C01": ("Lean 4 model of cells (clamped neighbours + the grid's own cell-boundary function), truncation, rates, intensity and the 3^d-1 "
+            "block decomposition; 51 theorems at full strength for every strictly increasing axis with 0 inside, every cell-boundary "
+            "function strictly inside its gap, every mass that is additive and non-negative on one-sided intervals (boxes away from the "
+            "origin), d = 1, 2, 3: cells tile the truncated support with no gap or overlap, each state lies in its own cell and in no other, "
+            "truncation changes neither a rate nor the intensity, rates are non-negative, the sum of the rates is exactly the reported "
+            "intensity (telescoping in 1-d, grid-sum lemma per coordinate and the 8 / 26 blocks in 2-d / 3-d), all closed under refine^k. "
+            "Correspondence: the model is fed mass tables measured on the real nu.integrate / model.mass at the boundaries it asks for "
+            "and compared with create_q_vector, intensity_of_jumps, the inversion sampler's per-state probability and the adapted "
+            "sampler's bucket masses; independent quadrature / copula-density oracle per cell.",
+            "Additivity of the concrete families' integrals and of the copula mass is a hypothesis here (C09, C11, C12); d > 3 and the "
+            "probability-step median are oracle-checked only.",
+            "Lean 4 proof (telescoping over an index function, grid-sum lemma per coordinate) + behaviour-fed differential correspondence",
+            "DESIGN.md §4 C01"),
     "C02": ("Lean 4 model of the six samplers as functions of the uniform u over Q with explicit u-cells. Proved for all inputs: draw "
             "specifications (state k is returned exactly on its listed cells, cells disjoint and covering) for alias, binary search tree, "
             "Huffman, inversion and adapted 1-d for arbitrary tables; total cell length = law of the tables; zero-probability states get no "
